@@ -571,8 +571,8 @@ fn hostile_c06(o: &mut Out, r: &mut Rng, th: bool) {
             for b1 in 0..=255u8 {
                 for hint in [None, Some(true), Some(false)] {
                     // the hint cannot matter much on a header-only datagram: every prefix with the heuristic,
-                    // one prefix in sixteen with a fixed hint
-                    if hint.is_some() && (b0 as usize * 256 + b1 as usize) % 16 != 5 {
+                    // one prefix in sixty-four with a fixed hint
+                    if hint.is_some() && (b0 as usize * 256 + b1 as usize) % 64 != 5 {
                         continue;
                     }
                     let mut all = String::new();
@@ -598,7 +598,7 @@ fn hostile_c06(o: &mut Out, r: &mut Rng, th: bool) {
                 }
             }
         }
-        o.exhaustive("read 0.6: all 2^24 byte strings of length 3 with hint None (hints Some(true) / Some(false): 2^20 of them each)");
+        o.exhaustive("read 0.6: all 2^24 byte strings of length 3 with hint None (hints Some(true) / Some(false): 2^18 of them each)");
     }
     for _ in 0..(if th { 20_000 } else { 100_000 }) {
         let b = r.bytes(3);
